@@ -389,6 +389,12 @@ func oracles(prop string, op Op, rec *idp.AuthReq, entity *string, user *idp.Use
 		if success && (rec == nil || !rec.IsDone || !completed) {
 			fail("success-without-completed-authentication", "Success response although the stored request is absent or not done")
 		}
+		if success && (user == nil || entity == nil || len(st.Fired) > 0 || (rec != nil && (rec.Binding == idp.PostBinding || rec.Binding == idp.RedirBinding) && !algValid(alg))) {
+			fail("success-despite-lookup-or-signing-failure", fmt.Sprintf("Success response although user-info lookup, key retrieval or signing failed (fired faults %v, algorithm %s)", st.Fired, alg))
+		}
+		if success && rec != nil && (rec.Binding == idp.PostBinding || rec.Binding == idp.RedirBinding) && rec.ACS != "" && o.Sig == 0 {
+			fail("success-unsigned", "Success response delivered without any signature")
+		}
 		if !success && (o.NameID != "" || len(o.Attrs) > 0 || o.Sig != 0) {
 			fail("failure-reply-leaks", fmt.Sprintf("non-Success reply with NameID %q, %d attributes, signature kind %d", o.NameID, len(o.Attrs), o.Sig))
 		}
